@@ -41,3 +41,43 @@ Section Checkers.
   Definition certificate_ok (s t : node) (W : list (edge * Z)) (A : list edge) (P : list (list node * Z)) : bool :=
     antichain_ok A && cover_ok s t W P && (antichain_weight W A =? cover_size P).
 End Checkers.
+
+(* ------------------------------------------------------------------------------------------ *)
+(* stDAG's width cache as a state machine.  The min-flow engine (network_simplex) is external: [solve] maps the
+   demand function handed to it to the optimum it reports.  Operations on ONE stDAG object:
+     WGetWidth ign        get_width(edges_to_ignore = ign)      (caches its answer in self.width iff ign is empty)
+     WAntichain wf        compute_max_edge_antichain(weight_function = wf), with or without get_antichain
+   The code as it is reads self.width only in get_width with an empty ignore list. *)
+Section WidthCache.
+  Variable s t : node.                         (* global source / sink *)
+  Variable solve : (edge -> Z) -> Z.
+
+  Definition w_default (e : edge) : Z := if (fst e =? s)%N || (snd e =? t)%N then 0 else 1.
+  Definition w_width (ign : list edge) (e : edge) : Z := if memE e ign then 0 else 1.
+  Definition w_given (wf : list (edge * Z)) (e : edge) : Z := wt wf e.
+
+  Inductive wop := WGetWidth (ign : list edge) | WAntichain (wf : option (list (edge * Z))).
+
+  Definition wop_demand (o : wop) : edge -> Z :=
+    match o with
+    | WGetWidth ign => w_width ign
+    | WAntichain None => w_default
+    | WAntichain (Some wf) => w_given wf
+    end.
+
+  Definition wstep (cache : option Z) (o : wop) : option Z * Z :=
+    match o with
+    | WGetWidth [] => match cache with
+                      | Some w => (cache, w)
+                      | None => let w := solve (w_width []) in (Some w, w)
+                      end
+    | WGetWidth ign => (cache, solve (w_width ign))
+    | WAntichain _ => (cache, solve (wop_demand o))
+    end.
+
+  Fixpoint wrun (cache : option Z) (os : list wop) : list Z :=
+    match os with
+    | [] => []
+    | o :: r => let '(c, a) := wstep cache o in a :: wrun c r
+    end.
+End WidthCache.
